@@ -109,6 +109,17 @@ long __fpsym_isread_pre(void*is){ if(tape.empty()) return -1; std::istream*i=(st
 void __fpsym_isread_post(void*is,char*p,int64_t n,long pos){ if(tape.empty()||pos<0) return; std::istream*i=(std::istream*)is; uintptr_t sb=(uintptr_t)i->rdbuf(); Guard g;
   for(int64_t k=0;k+8<=n;k+=8){ auto it=tape.find({sb,pos+k}); if(it!=tape.end()) shadow[(uintptr_t)(p+k)]=it->second; else shadow.erase((uintptr_t)(p+k)); } }
 
+// ASCII stream tape: ostream << double / istream >> double carry the shadow keyed by (streambuf, byte offset of the first character of
+// the token). The reader's offset is taken after the leading white space that the extraction would skip anyway (skipws streams only).
+void __fpsym_ascwrite(void*os,uint64_t s){ if(!s && tape.empty()) return; std::ostream*o=(std::ostream*)os; long pos=(long)o->tellp();
+  if(pos<0){ if(s){ Guard g; escapes++; escape_what+="asc-write,"; } return; }
+  uintptr_t sb=(uintptr_t)o->rdbuf(); Guard g; if(s) tape[{sb,-1-pos}]=s; else tape.erase({sb,-1-pos}); }
+long __fpsym_ascread_pre(void*is){ if(tape.empty()) return -1; std::istream*i=(std::istream*)is; if(!i->good() || !(i->flags() & std::ios_base::skipws)) return -1;
+  while(true){ int c=i->peek(); if(c==EOF) return -1; if(c==' '||c=='\n'||c=='\t'||c=='\r'||c=='\v'||c=='\f') i->get(); else break; }
+  return (long)i->tellg(); }
+void __fpsym_ascread_post(void*is,char*p,long pos){ if(tape.empty()) return; std::istream*i=(std::istream*)is; uintptr_t sb=(uintptr_t)i->rdbuf(); Guard g;
+  auto it = pos<0 ? tape.end() : tape.find({sb,-1-pos}); if(it!=tape.end() && !i->fail()) shadow[(uintptr_t)p]=it->second; else shadow.erase((uintptr_t)p); }
+
 // ---------------- harness API (callable from instrumented and plain code) ----------------
 double fpsym_symbolic(double c,int idx,double lo,double hi){ Guard g; load_overrides();
   auto si=symidx.find(idx); if(si!=symidx.end()){ tret[0]=syms[si->second].node; tret[1]=0; return syms[si->second].v; }
